@@ -41,6 +41,26 @@ def check(repo: Repo, rep: Report) -> None:
     rep.assumptions += ["asyncio / concurrent futures behave as documented; emitted *values* are not decided"]
     rep.rule("T1-single-shot", "bridge callbacks: exactly one value then completion, or exactly one error", floor=6)
     rep.rule("T2-wiring", "registration / cancellation / delegation wiring of the bridges", floor=5)
+    rep.rule("T4-bridge-scheduler", "run / to_async resolve their scheduler by `given or <default>` and use the resolved one", floor=3)
+    rn = repo.fn("reactivex/run.py", "run")
+    sp = [p_ for p_ in rn.params if "sched" in p_]
+    defs_ = [n_.value for n_ in rn.direct_nodes() if isinstance(n_, ast.Assign) and sp and u(n_.targets[0]) == sp[0]]
+    okr = len(defs_) == 1 and isinstance(defs_[0], ast.BoolOp) and isinstance(defs_[0].op, ast.Or) and u(defs_[0].values[0]) == sp[0] and len(defs_[0].values) == 2
+    rep.ob("T4-bridge-scheduler", rn, f"run: `{sp[0] if sp else '?'} = {short(defs_[0], 50) if defs_ else '?'}`", okr,
+           "run() does not fall back to its default scheduler when none is given (or ignores the one given)")
+    from ..model import is_subscribe_call as _isub
+    subs_ = [x for x in sites(rn) if _isub(x.node)]
+    oks = bool(subs_) and all(any(k.arg == "scheduler" and sp and u(k.value) == sp[0] for k in x.node.keywords) for x in subs_)
+    rep.ob("T4-bridge-scheduler", rn, "run: source.subscribe(..., scheduler=scheduler)", oks,
+           "run() subscribes the source without the scheduler it resolved: run(source, scheduler) ignores its argument")
+    ta = repo.fn("reactivex/observable/toasync.py", "to_async_")
+    tp = [p_ for p_ in ta.params if "sched" in p_]
+    dd = [n_ for n_ in ta.direct_nodes() if isinstance(n_, ast.Assign) and isinstance(n_.value, ast.BoolOp) and isinstance(n_.value.op, ast.Or)
+          and tp and u(n_.value.values[0]) == tp[0] and isinstance(n_.value.values[-1], ast.Call)]
+    used = bool(dd) and any(isinstance(x.node, ast.Call) and isinstance(x.node.func, ast.Attribute) and x.node.func.attr.startswith("schedule") and u(x.node.func.value) == u(dd[0].targets[0])
+                            for g_ in ta.walk() if g_.is_func for x in sites(g_))
+    rep.ob("T4-bridge-scheduler", ta, "to_async: `_scheduler = scheduler or <default>()` and the call is scheduled on it", len(dd) == 1 and used,
+           "to_async does not resolve its scheduler by `given or default` (a missing scheduler is None -> AttributeError; a given one is ignored)")
     rep.rule("T3-blocking-result", "to_future / run: last value iff has_value, else SequenceContainsNoElementsError; error => exception", floor=5)
     # from_future_
     done = repo.fn(FF, "from_future_.subscribe.done")
@@ -57,7 +77,9 @@ def check(repo: Repo, rep: Report) -> None:
     reg = any(isinstance(s.node, ast.Call) and dotted(s.node.func) == "future.add_done_callback" and u(s.node.args[0]) == "done" for s in sites(fsub))
     rep.ob("T2-wiring", fsub, "future.add_done_callback(done)", reg, "the done callback is not registered on the future")
     disp = repo.fn(FF, "from_future_.subscribe.dispose")
-    canc = any(isinstance(s.node, ast.Call) and dotted(s.node.func) == "future.cancel" for s in sites(disp))
+    # the cancel is decided by nothing but the presence of the future itself (`if future:`): not by its state
+    canc = any(isinstance(s.node, ast.Call) and dotted(s.node.func) == "future.cancel" and all(u(e) == "future" and p_ for e, p_ in s.ctx.guards)
+               for s in sites(disp))
     ret = any(isinstance(s.node, ast.Return) and isinstance(s.node.value, ast.Call) and call_name(s.node.value) == "Disposable"
               and u(s.node.value.args[0]) == "dispose" for s in sites(fsub))
     rep.ob("T2-wiring", fsub, "unsubscribe cancels the future", canc and ret, "unsubscribing first does not cancel the future")
